@@ -215,6 +215,14 @@ pub fn generate(prop: &str, _tier: Tier, rng: &mut Rng, _idx: u64) -> Case {
             }
             if prop == "C07" {
                 cfg.inbound_multi_ids = rng.chance(1, 3);
+                if rng.chance(1, 3) {
+                    // re-deliveries of unreleased QoS 2 messages and identifier reuse after
+                    // release, next to the client's own QoS 2 exchanges (same identifier space
+                    // numerically, different exchanges): exactly once per stream all the same
+                    cfg.redeliver = true;
+                    cfg.inbound_unknown_ids = false;
+                    cfg.inbound_absent_ids = false;
+                }
             }
             if deep {
                 cfg.deepen();
@@ -222,6 +230,11 @@ pub fn generate(prop: &str, _tier: Tier, rng: &mut Rng, _idx: u64) -> Case {
             if prop == "C08" {
                 cfg.writer_tweaks = rng.coin();
                 cfg.pubrel_variants = rng.chance(2, 3);
+            }
+            if (prop == "C09" || prop == "C07") && rng.coin() {
+                // PUBRELs in long form, with a failing reason code (0x92) and for identifiers
+                // the client has no record of: each of them releases its identifier all the same
+                cfg.pubrel_variants = true;
             }
             if prop == "C07" && rng.chance(1, 4) {
                 cfg.strict_wakers = true;
